@@ -46,6 +46,9 @@ def structures(tier):
                 continue
             for ft in (range(13) if heavy else [None]):
                 sts.append({'kind': 'vmfault', 'nested': s, 'noise': noise, 'ft': ft})
+    for first in (['RealFaultAddressInternal'], ['RealFaultAddressExternal'], []):
+        for second in (['RealFaultAddressInternal'], []):
+            sts.append({'kind': 'vmfault2', 'first': first, 'second': second})
     kinds = ['DYLD_uuid_map_a', 'DYLD_uuid_shared_cache_a']
     for n in range(0, 4 if tier == 'thorough' else 3):
         for ks in itertools.product(kinds, repeat=n):
@@ -89,7 +92,63 @@ def _feed(ctx, evs, first):
 
 
 def run(ctx, st):
-    return {'vmfault': run_vmfault, 'launch': run_launch, 'sampler': run_sampler}[st['kind']](ctx, st)
+    return {'vmfault': run_vmfault, 'launch': run_launch, 'sampler': run_sampler, 'vmfault2': run_vmfault2}[st['kind']](ctx, st)
+
+
+def run_vmfault2(ctx, st):
+    """a fault window (any result, possibly lost records), then a real-fault record outside any window, then a second,
+    successful fault on the same thread: the second trace reflects its own window only"""
+    _, by_name = sweep.codes()
+    vf = by_name['MACH_vmfault']
+    evs = []
+    ts = [10]
+
+    def add(name, q, w):
+        ts[0] += 1
+        e = sweep.make_event(ts[0], w, TID, by_name[name] | q)
+        evs.append(e)
+        return e
+    a1 = [ctx.int('a1_%d' % i) for i in range(4)]
+    r1 = [ctx.int('r1_%d' % i) for i in range(4)]
+    ctx.assume(r1[3] == 4)            # fault types are not this structure's subject
+    add('MACH_vmfault', 1, a1)
+    for i, k in enumerate(st['first']):
+        w = [ctx.int('n1_%d_%d' % (i, j)) for j in range(4)]
+        ctx.assume((w[1] & 0xff) == 1)
+        add(k, 0, w)
+    add('MACH_vmfault', 2, r1)
+    stray = [ctx.int('x_%d' % j) for j in range(4)]
+    ctx.assume((stray[1] & 0xff) == 2)
+    add('RealFaultAddressInternal', 0, stray)          # a record whose window was lost
+    a2 = [ctx.int('a2_%d' % i) for i in range(4)]
+    r2 = [ctx.int('r2_%d' % i) for i in range(4)]
+    ctx.assume(r2[2] == 0)
+    ctx.assume(r2[3] == 2)
+    start2 = add('MACH_vmfault', 1, a2)
+    n2 = []
+    for i, k in enumerate(st['second']):
+        w = [ctx.int('n2_%d_%d' % (i, j)) for j in range(4)]
+        ctx.assume((w[1] & 0xff) == 3)
+        add(k, 0, w)
+        n2.append(w)
+    add('MACH_vmfault', 2, r2)
+    t, out, err = _feed(ctx, evs, start2)
+    L = 'C20/vmfault-history'
+    if err == 'ood':
+        ctx.reach('ood'); ctx.reach(); return
+    if err is not None or t is None:
+        ctx.check(L + '/trace', False, repr(err)); ctx.reach(); return
+    if n2:
+        ctx.check(L + '/pid-from-its-own-window', And(t.pid is not None, t.pid == n2[0][3]), 'pid %r' % (t.pid,))
+        spec, _, _ = c11.FAMILIES['vmprot']((n2[0][1] >> 8) & 0xff)
+        shown = _names_guards(t.caller_prot if t.caller_prot is not None else [])
+        for n in sorted(set(shown) | {k for k in spec if k in D.VM_PROT}):
+            g = shown.get(n, False)
+            ctx.check(L + '/protection-from-its-own-window', And(Implies(g, spec.get(n, False)), Implies(spec.get(n, False), g)), n)
+    else:
+        ctx.check(L + '/no-nested-record-no-pid', t.pid is None and t.caller_prot is None, 'pid %r' % (t.pid,))
+    ctx.reach()
+
 
 
 def _names_guards(lst):
